@@ -93,6 +93,21 @@ where
         self.inner.shards.iter().filter(|shard| shard.is_locked()).count()
     }
 
+    /// Remove the piece of the given key from the keeper, so that a deleted entry is no longer served from the write
+    /// queue.
+    pub fn remove<Q>(&self, hash: u64, key: &Q)
+    where
+        Q: Hash + equivalent::Equivalent<K> + ?Sized,
+    {
+        let shard = self.shard(hash);
+        let piece = match shard.write().find_entry(hash, |p| key.equivalent(p.key())) {
+            Ok(o) => Some(o.remove().0),
+            Err(_) => None,
+        };
+        // Drop the piece out of the lock critical section.
+        drop(piece);
+    }
+
     fn shard(&self, hash: u64) -> Arc<RwLock<Shard<K, V, P>>> {
         let index = (hash as usize) % self.inner.shards.len();
         self.inner.shards[index].clone()
